@@ -581,9 +581,6 @@ func parseRoute(route, payload string) ([]entry, bool) {
 // judge compares what a route listed with the model. It returns "" when the route is consistent
 // with the model, otherwise a short reason.
 func judge(route string, got []entry, want []entry, kind string) string {
-	if route == "count" {
-		return ""
-	}
 	pos := map[string]int{}  // key -> model position
 	vpos := map[string]int{} // value -> model position (values are unique: one per op)
 	for i, e := range want {
@@ -730,6 +727,7 @@ func evalScriptDir(cs []container, wants func(kind string) [][]entry, stats map[
 			es    []entry
 		}
 		var ps []parsed
+		var counts []string
 		for _, route := range order[c.Tag] {
 			payload := byTag[c.Tag][route]
 			if payload == "ERR" {
@@ -737,6 +735,9 @@ func evalScriptDir(cs []container, wants func(kind string) [][]entry, stats map[
 				continue
 			}
 			if route == "count" {
+				// count() is the length of every enumeration
+				stats["route-judged:"+c.Kind+":count"]++
+				counts = append(counts, payload)
 				continue
 			}
 			es, ok := parseRoute(route, payload)
@@ -754,6 +755,15 @@ func evalScriptDir(cs []container, wants func(kind string) [][]entry, stats map[
 			for _, p := range ps {
 				if why := judge(p.route, p.es, want, c.Kind); why != "" {
 					fs = append(fs, histFailure{Kind: c.Kind, Birth: c.Birth, Route: p.route, Why: why, Got: entriesString(p.es), Want: entriesString(want)})
+				}
+			}
+			for _, n := range counts {
+				if n != strconv.Itoa(len(want)) {
+					typ := "missing"
+					if g, _ := strconv.Atoi(n); g > len(want) {
+						typ = "extra"
+					}
+					fs = append(fs, histFailure{Kind: c.Kind, Birth: c.Birth, Route: "count", Why: fmt.Sprintf("%s: count() is %s, the container holds %d entries", typ, n, len(want)), Got: n, Want: entriesString(want)})
 				}
 			}
 			if mi == 0 || len(fs) < len(best) {
@@ -806,30 +816,6 @@ func evalHistory(h []hop, as assign, stats map[string]int) ([]histFailure, obsv,
 	return f, o, cs
 }
 
-// minimalFailing searches the canonical enumeration from the shortest history up and returns the
-// first (history, assignment) that fails for the given container kind: the finding key is derived
-// from that, so every shard (and both tiers) name one defect the same way.
-func minimalFailing(kind, class string, maxLen int) (hs []hop, as assign, hf histFailure, found bool) {
-	stats := map[string]int{}
-	for n := 1; n <= maxLen && !found; n++ {
-		eachHistory(n, 4, func(h []hop) {
-			if found {
-				return
-			}
-			for _, a := range assigns {
-				fs, _, _ := evalHistory(h, a, stats)
-				for _, f := range fs {
-					if f.Kind == kind && f.Class == class {
-						hs, as, hf, found = append([]hop(nil), h...), a, f, true
-						return
-					}
-				}
-			}
-		})
-	}
-	return
-}
-
 func histWorker(w *pool.W, arg json.RawMessage) {
 	var spec struct{ Len, Shard, Of int }
 	json.Unmarshal(arg, &spec)
@@ -842,18 +828,31 @@ func histWorker(w *pool.W, arg json.RawMessage) {
 		if idx%spec.Of != spec.Shard {
 			return
 		}
-		for _, a := range assigns {
+		for ai, a := range assigns {
 			if !w.Item(fmt.Sprintf("hist:%s:%s", a.Name, histString(h))) {
 				continue
 			}
 			n++
-			fs, o, _ := evalHistory(h, a, stats)
+			fs, o, cs := evalHistory(h, a, stats)
 			for _, f := range fs {
 				if reported[f.Kind+":"+f.Class] {
 					continue
 				}
+				// A history whose proper prefix already fails on the same container says nothing new: the
+				// prefix is enumerated in its own right (every length up to the bound is), and what
+				// follows a first divergence is its consequence, not another defect.
+				if f.Kind != "script" && len(h) > 1 && prefixFails(h[:len(h)-1], a, f.Kind, f.Birth) {
+					stats["failures-derived-from-a-failing-prefix"]++
+					continue
+				}
 				reported[f.Kind+":"+f.Class] = true
-				emitHistFailure(w, f, fmt.Sprintf("%s / %s", histString(h), a.Name), len(h), a, o)
+				script := ""
+				for _, c := range cs {
+					if c.Kind == f.Kind && c.Birth == f.Birth {
+						script = c.Script
+					}
+				}
+				emitRawFailure(w, f, fmt.Sprintf("history %s with keys %s", histString(h), a.Name), len(h), idx, ai, script, histCase{Hist: append([]hop(nil), h...), Assign: a.Name}, o)
 			}
 		}
 	})
@@ -873,29 +872,65 @@ func emitStats(w *pool.W, n int64, stats map[string]int) {
 	w.Emit(rec{Kind: "count", N: n, Stats: st})
 }
 
-// emitHistFailure names a failure after the shortest canonical history that shows the same class of
-// failure (searched up to maxLen ops); where is a description of the case it was first seen on.
-func emitHistFailure(w *pool.W, f histFailure, where string, maxLen int, a assign, o obsv) bool {
-	if f.Kind == "script" {
-		w.Emit(rec{Kind: "fail", Key: "history-order:script-error", Clause: "insertion-order", Size: maxLen, Case: histCase{Assign: a.Name},
-			Detail: fmt.Sprintf("%s: %s: %s", where, f.Why, f.Got)})
-		return true
-	}
-	mh, ma, mf, ok := minimalFailing(f.Kind, f.Class, maxLen)
-	if !ok {
-		return false
-	}
-	cs := buildContainers(mh, ma)
-	var script string
-	for _, c := range cs {
-		if c.Birth == mf.Birth && c.Kind == mf.Kind {
-			script = c.Script
+func prefixFails(h []hop, a assign, kind, birth string) bool {
+	fs, _, _ := evalHistory(h, a, map[string]int{})
+	for _, f := range fs {
+		if f.Kind == kind && f.Birth == birth {
+			return true
 		}
 	}
-	w.Emit(rec{Kind: "fail", Key: "history-order:" + f.Kind + ":" + f.Class + ":" + histString(mh), Clause: "insertion-order", Size: len(mh), Case: histCase{Hist: mh, Assign: ma.Name},
-		Detail: fmt.Sprintf("history %s with keys %s on a container born as %q (%s): route %s %s\n  enumerated: %s\n  insertion order: %s\n(first seen in this shard on %s / %s / %s)",
-			histString(mh), ma.Name, mf.Birth, script, mf.Route, mf.Why, mf.Got, mf.Want, where, f.Birth, f.Route)})
-	return true
+	return false
+}
+
+// rawFail is what a worker reports: the class of the failure and the first case of its shard that
+// shows it. Shards walk the canonical enumeration in order, so the smallest (Size, Idx, AssignIdx)
+// over all reports is the first history of the whole enumeration that shows the class: the finding
+// key is derived from that one, and every run (and both tiers) names one defect the same way.
+type rawFail struct {
+	HKind, Class, Birth, Route, Why, Got, Want, Where, Script string
+	Size, Idx, AssignIdx                                      int
+	Case                                                      histCase
+}
+
+func (r *rawFail) less(o *rawFail) bool {
+	if (r.Case.Bulk != "") != (o.Case.Bulk != "") {
+		return r.Case.Bulk == ""
+	}
+	if r.Size != o.Size {
+		return r.Size < o.Size
+	}
+	if r.Idx != o.Idx {
+		return r.Idx < o.Idx
+	}
+	return r.AssignIdx < o.AssignIdx
+}
+
+func (r *rawFail) key() string {
+	if r.Case.Bulk != "" {
+		// only a bulk history shows it (every history within the tier's length bound passes)
+		return "history-order:" + r.HKind + ":" + r.Class + ":long-history"
+	}
+	return "history-order:" + r.HKind + ":" + r.Class + ":" + histString(r.Case.Hist)
+}
+
+func (r *rawFail) detail() string {
+	return fmt.Sprintf("%s on a container born as %q (%s): route %s %s\n  enumerated: %s\n  insertion order: %s", r.Where, r.Birth, r.Script, r.Route, r.Why, r.Got, r.Want)
+}
+
+func clip(s string, n int) string {
+	if len(s) > n {
+		return s[:n] + "..."
+	}
+	return s
+}
+
+func emitRawFailure(w *pool.W, f histFailure, where string, size, idx, aidx int, script string, cs histCase, o obsv) {
+	if f.Kind == "script" {
+		w.Emit(rec{Kind: "fail", Key: "history-order:script-error", Clause: "insertion-order", Size: size, Case: cs,
+			Detail: fmt.Sprintf("%s: %s: %s", where, f.Why, clip(f.Got, 1500))})
+		return
+	}
+	w.Emit(rec{Kind: "histfail", Raw: &rawFail{HKind: f.Kind, Class: f.Class, Birth: f.Birth, Route: f.Route, Why: f.Why, Got: clip(f.Got, 600), Want: clip(f.Want, 600), Where: where, Script: clip(script, 400), Size: size, Idx: idx, AssignIdx: aidx, Case: cs}})
 }
 
 // ---- bulk histories: enough deletions to cross any lazy-compaction / rehash threshold ---------
@@ -1091,19 +1126,7 @@ func bulkWorker(w *pool.W, arg json.RawMessage) {
 					continue
 				}
 				reported[f.Kind+":"+f.Class] = true
-				// the same defect usually shows on a short history already: then it goes by that name
-				if emitHistFailure(w, f, fmt.Sprintf("bulk %s / %s keys", b, style), 5, assigns[0], o) {
-					continue
-				}
-				got, want := f.Got, f.Want
-				if len(got) > 600 {
-					got = got[:600] + "..."
-				}
-				if len(want) > 600 {
-					want = want[:600] + "..."
-				}
-				w.Emit(rec{Kind: "fail", Key: fmt.Sprintf("history-order:%s:%s:bulk", f.Kind, f.Class), Clause: "insertion-order", Size: b.N, Case: histCase{Bulk: b.String(), Assign: style},
-					Detail: fmt.Sprintf("insert %d keys, unset %s, insert again %s, append %d new keys (%s keys) on a container born as %q: route %s %s\n  enumerated: %s\n  insertion order: %s", b.N, b.Del, b.Re, b.Ext, style, f.Birth, f.Route, f.Why, got, want)})
+				emitRawFailure(w, f, fmt.Sprintf("bulk history (insert %d keys, unset %s, insert again %s, append %d new keys; %s keys)", b.N, b.Del, b.Re, b.Ext, style), b.N, i, 0, "", histCase{Bulk: b.String(), Assign: style}, o)
 			}
 		}
 	}
